@@ -402,6 +402,26 @@ def _matches(v, want):
     return v.is_const and v.val == want and type(v.val) is type(want)
 
 
+def _closure_calls(ctx, fv, name):
+    """`fv` is a local function all of whose normal paths call Cache.<name> with its own first parameter."""
+    if fv.k != 'func' or fv.a[0] not in ctx.prog.funcs:
+        return False
+    g = ctx.prog.funcs[fv.a[0]]
+    if not g.posparams:
+        return False
+    n = 0
+    for p in ctx.paths(g, 'plain'):
+        if p.kind not in ('return', 'next'):
+            continue
+        calls = [e for e in p.trace if e.kind == 'CALL' and e.d['targets'][0].cls == 'Cache'
+                 and e.d['targets'][0].name == name and e.d['args'] and e.d['args'][0].k == 'param'
+                 and e.d['args'][0].a[0] == g.posparams[0]]
+        if not calls:
+            return False
+        n += 1
+    return n > 0
+
+
 @rule('I1', floor=20, title='persistent containers delegate to the right primitive with the right side/sentinel/retry constants')
 def i1(ctx):
     obs = []
@@ -488,7 +508,8 @@ def i1(ctx):
             for e in p.trace:
                 if e.kind == 'CALL' and e.d['targets'][0].name == '_index':
                     a = e.d['args']
-                    ok = len(a) == 2 and a[0].k == 'param' and a[0].a[0] == 'index' and a[1].k == 'bound' and a[1].a[1] == func
+                    ok = len(a) == 2 and a[0].k == 'param' and a[0].a[0] == 'index' and (
+                        a[1].k == 'bound' and a[1].a[1] == func or _closure_calls(ctx, a[1], func))
         obs.append(Ob('I1', 'Deque.%s/via-index' % meth, ok, 'Deque.%s does not resolve the position with _index and '
                       'apply Cache.%s' % (meth, func), f.loc()))
     return obs
